@@ -478,6 +478,14 @@ class Interp:
             return list(zip(*seqs))
         if fname in ("bool",):
             return self.truth(self.eval(e.args[0], env))
+        if fname in ("int", "float", "abs", "round") and len(e.args) == 1:
+            v = self.eval(e.args[0], env)
+            if isinstance(v, Obj):
+                raise Unsupported(f"{fname}() of a modelled object")
+            try:
+                return {"int": int, "float": float, "abs": abs, "round": round}[fname](v)
+            except (TypeError, ValueError) as ex:
+                raise PyRaise(type(ex).__name__, str(ex))
         if fname in ("tuple", "list", "iter"):
             return tuple(self.iterate(self.eval(e.args[0], env)))
         if fname == "type":
